@@ -269,7 +269,12 @@ theorem ok_publishTail {P : Out → Prop} (b0 X : B) (c : Cli) (r : PubReq) (s :
   unfold B.publishTail
   extract_lets dupl s1 b1 bm
   have hb1 : Ok P b0 b1 := by
-    refine (h.trans (ok_setSess X s1)).trans ?_
+    have hq : Ok P b0 ((X.setSess s1).pubDupQuota c r dupl) := by
+      unfold B.pubDupQuota
+      split
+      · exact ok_quotaBack _ _ _ (h.trans (ok_setSess X s1))
+      · exact h.trans (ok_setSess X s1)
+    refine hq.trans ?_
     simp only [b1, B.pubRetain]
     split
     · split
